@@ -13,7 +13,7 @@ from ..loader import AnalysisError
 from .. import effects
 from ..ledger import UnitLedger, show_scenario
 from ..algebra import Poly, short
-from ..strdom import Str, ext
+from ..strdom import Str, ext, SELF
 from .C01 import booking_units, unique_guard
 from .C11 import external_sector_guards
 
@@ -101,6 +101,40 @@ def run(prog, check):
                              'receiver is credited amount * XR_source / XR_target' if ok else
                              'receiver is credited %s, required %s' % (got.show()[:200], expected.show()[:200]),
                              'a flow from a currency worth 2 numeraire units to one worth 1: the receiver must get twice the amount')
+    # ---- R1b: an amount booked on a counterparty of possibly another currency is either guarded by a same-zone test
+    #           (booked 1:1) or converted at the cross rate (the not-same-zone branch) ----------------------------------
+    for ci, mname, it in units:
+        L = UnitLedger(it)
+        if not any(hasattr(x, 'fx_name') for x in L.entries):
+            continue
+        ukey = '%s::%s.%s' % (ci.module.rel, ci.name, 'G' if mname == '_GenerateEquations' else mname)
+        for x in L.entries:
+            if hasattr(x, 'fx_name'):
+                continue
+            rsym = L.cur_sym(x.role)
+            # the owner(s) of the amount variables in the booked term
+            owners = set()
+            for a in x.poly.atoms():
+                if a[0] == 'var' and a[1] != ext('XR').key():
+                    owners.add(a[1])
+            foreign_owner = [o for o in owners if o != x.role.key()]
+            if not foreign_owner:
+                continue          # the sector books its own variable: same currency by construction
+            if L.cur_sym(x.role) == ('cur', SELF.key()) and all(o == SELF.key() for o in foreign_owner) and x.role.kind in ('loop', 'lookup') and \
+                    L.cur_sym(x.role) == L.cur_sym(SELF):
+                continue
+            guards = list(x.elem_guards) + list(x.outer)
+            plain = [g for g in guards if g.cond.kind == 'samezone']
+            ok = bool(plain) or L.cur_sym(x.role) == L.cur_sym(SELF)
+            key = '%s::cross-zone-booking-guarded(%s)' % (ukey, x.role.show())
+            if key in seen:
+                continue
+            seen.add(key)
+            check.ob('C07.R1', key, ok, x.where,
+                     'the booking sits in an explicit same-zone / other-zone branch' if ok else
+                     'an amount owned by another object is booked on %s without a plain same-currency-zone test: a counterparty in another '
+                     'zone is credited 1:1 and never refused' % x.role.show(),
+                     'a residual supplier / flow target in another currency zone, with and without an ExternalSector')
     # the cross-rate definition itself
     xr_cls = prog.classes.get('ExchangeRates')
     if xr_cls is None:
